@@ -16,6 +16,7 @@ bucket.
 from __future__ import annotations
 
 import ast
+import re
 from typing import Dict, List, Optional, Set
 
 from engine.src import FunctionInfo, own_nodes, own_nodes_incl_lambda, src_of, AnalysisError
@@ -565,6 +566,20 @@ def check_e(ck, repo):
     else:
         kfs = {k[2] for k in keys}
         rws = {k[3] for k in keys}
+        def _kcore(t_):
+            # wrappers that change the container or the number type of a row, not the numbers in it
+            for _ in range(8):
+                t0 = t_
+                t_ = re.sub(r"\.(todense|toarray|ravel|flatten|tocsc|tocsr)\(\)", "", t_)
+                t_ = re.sub(r"\.astype\(numpy\.int(32|64)\)", "", t_)
+                t_ = re.sub(r"numpy\.(asarray|array)\(((?:[^()]|\([^()]*\))*)\)", r"\2", t_)
+                if t_ == t0:
+                    break
+            return t_
+
+        if (len(kfs) > 1 or rws != {"self.binner_.transform(X)"}) and len({_kcore(k_) for k_ in kfs}) == 1 and {_kcore(r_) for r_ in rws} == {"self.binner_.transform(X)"}:
+            ck.unknown("C08.e", tb, f"key = {sorted(kfs)}", f"fit and predict encode the rows of self.binner_.transform(X) into keys with different densifications / casts ({sorted(kfs)} over {sorted(rws)}): the keys are equal when both sides end up with dense rows of numbers, which this rule does not decide")
+            kfs, rws = {sorted(kfs)[0]}, {"self.binner_.transform(X)"}
         ck.verdict(len(kfs) == 1, "C08.e", tb, f"key = {sorted(kfs)[0][:70]}", "bucket keys of the transformer binner are built by one expression everywhere", f"fit and predict build bucket keys with different expressions {sorted(kfs)}: no row finds its bucket")
         ck.verdict(rws == {"self.binner_.transform(X)"}, "C08.e", tb, f"rows = {sorted(rws)}", "the rows encoded are the fitted binner's transform of the rows at hand", f"key rows come from {sorted(rws)}, not from self.binner_.transform(X) on both sides")
         for kf in sorted(kfs):
@@ -633,6 +648,7 @@ def check_e(ck, repo):
                                 break
                         if okn_ and depth_ == 0:
                             t_ = inner
+                t_ = t_.replace(".tocsc()", "").replace(".tocsr()", "")
                 for suf_ in (".todense()", ".toarray()", ".nonzero()[0]", ".A", ".A1", ".ravel()", ".flatten()"):
                     if t_.endswith(suf_):
                         t_ = t_[: -len(suf_)]
